@@ -10,7 +10,9 @@ no room for the pending bytes" are REFUTED on the model (witness = finding F7).
 
 TIE: correspondence. (1) harness/c13_buf.c looks at the caller's buffer right after the posting call, after each kind of
 exit, scribbles over the buffer of a buffered put before the wait and reads the variable back: sizes on both sides of
-NC_BYTE_SWAP_BUFFER_SIZE, all types, typed/flexible/vector layouts, transposing imap on the get side, hints
+NC_BYTE_SWAP_BUFFER_SIZE, all types, typed/flexible/vector layouts, derived buffer types without gaps (contiguous(k),
+nested contiguous, contiguous of vector(2,bl,bl): element count bnelems <> buftype count bufcount), collective and independent
+blocking puts, transposing imap on the get side, hints
 nc_in_place_swap enable/disable/auto; compared with Abuf.put_swaps_user_buf / in_swapn / unpack_xbuf evaluated in Coq.
 (2) random attach/bput/iput/iget/wait/cancel/detach/inq_buffer histories through harness/pnc_impl.c compared with the
 model run by coq/NbRun.v: return codes (NC_EINSUFFBUF, NC_EPENDINGBPUT, ...), usage and size, buffers incl. guard
@@ -32,7 +34,7 @@ MIX_THOROUGH = [('abuf', 1500, {'profile': 'abuf'}), ('mixed', 700, {}), ('big',
 
 
 def buffer_cases(ctx, lib, wd):
-    nput, nget = (240, 160) if ctx.tier == 'quick' else (2400, 1200)
+    nput, nget = (420, 160) if ctx.tier == 'quick' else (3600, 1200)
     cases = B.gen_cases(ctx.rng.fork('c13buf'), nput, nget)
     t0 = time.time()
     rc, out, res = B.run_harness(lib, cases, wd)
